@@ -44,6 +44,20 @@ def gen_cases(tier, seed):
             spec['plan']['faults'] = [{'at': f't0/s3:GetObject:{C * rng.randrange(0, 3)}#0', 'phase': 'body', 'bytes': rng.randrange(0, C),
                                        'kind': 'connreset', 'tag': 'FAULT-r'}]
         cases.append(spec)
+    # many small uploads from non-seekable streams (below the threshold: each is read completely into memory and sent as one
+    # PutObject) with the requests held: their bodies count against the same in-memory limit as multipart parts
+    for i in range(40 if quick else 400):
+        T = rng.choice([16, 24])
+        n = rng.choice([3, 4, 5, 6])
+        cfg = dict(multipart_threshold=T, multipart_chunksize=8, max_in_memory_upload_chunks=rng.choice([1, 2]), max_request_concurrency=rng.choice([1, 2]),
+                   max_request_queue_size=rng.choice([50, 1000]), max_submission_concurrency=rng.choice([1, 2, 3]), max_submission_queue_size=1000)
+        ts = [{'kind': 'upload', 'src': 'nonseekable', 'size': rng.choice([1, 5, T - 1]), 'flavor': rng.choice(['bare', 'declared', 'raising'])} for _ in range(n)]
+        if rng.random() < 0.3:
+            ts.insert(rng.randrange(n), {'kind': 'upload', 'src': 'nonseekable', 'size': 3 * T + 1})
+        if rng.random() < 0.3:
+            ts[0]['subs'] = [{'provide_size': ts[0]['size']}]
+        cases.append({'seed': rng.randrange(1 << 30), 'min_part': 8, 'config': cfg, 'transfers': ts, 'family': 'small-streams',
+                      'plan': {'gate': {'match': rng.choice(['s3:PutObject', '/s3:']), 'phase': 'before', 'policy': 'seeded'}}})
     # a stream upload failing or being cancelled half-way while its parts are held in the request stage: the submission thread goes on
     # reading the stream, and what it reads must still wait for an in-memory slot
     for i in range(40 if quick else 400):
